@@ -673,25 +673,27 @@ Proof.
   repeat (f_equal; try lia).
 Qed.
 
-(* for a group accepted by GroupResource::new whose every image is found with the size its entry states, and a file
-   below 4 GiB, write produces exactly the .ico/.cur file: header, entries with recomputed offsets 6+16n+sum, data *)
+(* for an ICON group (idType = 1) accepted by GroupResource::new whose every image is found with the size its entry states,
+   and a file below 4 GiB, write produces exactly the .ico file: header, entries with recomputed offsets 6+16n+sum, data.
+   (Before the F44 repair the statement also covered idType = 2 through the shared encoder - the code's own assumption
+   that a cursor group has the icon layout; cursor groups are ResourcesCur.group_write_cur.) *)
 Theorem group_write_ico s lookup g datas :
-  sec_ok s -> group_new s g = Ok g ->
+  sec_ok s -> group_new s g = Ok g -> g_type s g = 1 ->
   Forall2 (fun e d => lookup (ge_id s e) = Some d /\ lenN d = ge_bytes_in_res s e) (g_entries s g) datas ->
   6 + 16 * g_count s g + total_len datas < W32 ->
-  write_with s lookup g = (ico_encode (g_type s g) (mk_images s (g_entries s g) datas), true).
+  write_with s lookup g = (ico_encode 1 (mk_images s (g_entries s g) datas), true).
 Proof.
-  intros Hs HG HF HT.
+  intros Hs HG HTy HF HT.
   assert (Hlen : lenN (g_entries s g) = g_count s g).
   { unfold g_entries, lenN. rewrite map_length, seq_length. lia. }
   assert (H0 : rd16 s (r_off g) = 0).
   { unfold group_new in HG. destruct (negb (aligned_to 2 _)); [discriminate|]. destruct (r_len g <? 6); [discriminate|].
     destruct (rd16 s (r_off g) =? 0) eqn:Z; [lia|]. cbn [negb orb] in HG. discriminate. }
-  unfold write_with. rewrite Hlen.
+  unfold write_with. rewrite HTy. change (1 =? 2) with false. cbv iota. rewrite Hlen.
   destruct (write_entries_ico s lookup (g_entries s g) datas (6 + g_count s g * 16) HF) as [E1 E2]; [lia|].
   rewrite E1. cbn [fst snd]. rewrite E2. unfold ico_encode.
   rewrite lenN_mk_images by (exact (forall2_length _ _ _ HF)). rewrite Hlen.
-  rewrite (header_bytes s (r_off g) Hs H0). unfold g_type, g_count.
+  rewrite (header_bytes s (r_off g) Hs H0). unfold g_type in HTy. rewrite HTy. unfold g_count.
   replace (6 + 16 * rd16 s (r_off g + 4)) with (6 + rd16 s (r_off g + 4) * 16) by lia. reflexivity.
 Qed.
 
